@@ -91,6 +91,17 @@ func c18Cases(tier string, seed uint64, flavor string) []lib.Case {
 			}
 		}
 	}
+	// runs of differing blocks around and beyond the 64-block (4 MiB) wound aggregation limit
+	big := int64(70*lib.BS + 123)
+	for _, run := range []int{63, 64, 65, 66, 69, 70} {
+		for _, sl := range []int{lib.BS, 2*lib.BS + 5, -1} {
+			for _, m := range []string{"wound-agg", "wound", "error-stop"} {
+				s := c18Spec{Seed: lib.Mix(seed, 182, uint64(i)), SSize: big, DKind: "garble-run", Arg: run, Slice: sl, Mode: m}
+				cases = append(cases, lib.Case{Seed: s.Seed, Kind: s.DKind + "/" + m, Spec: lib.MustSpec(s)})
+				i++
+			}
+		}
+	}
 	return cases
 }
 
@@ -180,6 +191,12 @@ func c18Run(c lib.Case, env *lib.Env) lib.Result {
 		D = append(D, S[min(len(S), (s.Arg+2)*lib.BS):]...)
 	case "extend":
 		D = append(append([]byte(nil), S...), lib.RandomBytes(int64(s.Arg), lib.Mix(s.Seed, 3))...)
+	case "garble-run": // Arg contiguous differing blocks starting at block 1 (longer than the 4 MiB aggregation limit)
+		D = append([]byte(nil), S...)
+		for b := 1; b <= s.Arg && b < nbS; b++ {
+			blk := blockOf(D, b)
+			blk[len(blk)/2] ^= 0x20
+		}
 	}
 	// signature of {other, S} computed by wharf from memory
 	cont := &tlc.Container{Files: []*tlc.File{{Path: "a-other.bin", Size: int64(len(other)), Mode: 0o644}, {Path: "b-signed.bin", Size: s.SSize, Mode: 0o644, Offset: int64(len(other))}}, Size: int64(len(other)) + s.SSize}
